@@ -77,7 +77,7 @@ def tidal_potential(
     # Calculate tidal potential
     # The below coefficient is often written as r2 n2 e in the literature. This assumes M_H << m. TidalPy does not
     #    use that assumption. So the n2 is replaced by G M / a3
-    coeff = G * host_mass * radius**2 * eccentricity / semi_major_axis**3
+    coeff = G * host_mass * radius**2 * eccentricity / (1. * semi_major_axis)**3
 
     potential = coeff * \
                 ((-3. / 2.) * p_20 * np.cos(orbital_frequency * time) +
